@@ -578,8 +578,11 @@ Definition v_entry_revert (fx : fixes) (e : ventry) (v : vside) : option vside :
     end
   | EValDelete a ov => Some (if f_journal fx then incr_stat ov (set_validator ov v) else set_validator ov v)
   | EValUpdate a ov nv =>
+    (* what the statistics count is the record stored now (fix 7813a3d; the journal's newVal is a
+       pointer that an in-place caller may have written since) *)
+    let counted := match find (vals v) a with Some x => x | None => nv end in
     let v1 := set_validator ov v in
-    Some (if stake_equal nv ov then v1 else incr_stat ov (decr_stat nv v1))
+    Some (if stake_equal counted ov then v1 else incr_stat ov (decr_stat counted v1))
   | EValAddUBD r =>
     match queue v with
     | [] => Some v
